@@ -82,8 +82,8 @@ def d2_shapes(e):
 
 
 def compare(m, label, shapes, model, pcls, text, sname, settings, sem_factory=None):
-    kw = dict(settings)
-    kw2 = dict(settings)
+    kw = dict(impl.with_start(model, settings))
+    kw2 = dict(kw)
     if sem_factory is not None:
         kw['semantics'] = sem_factory()
         kw2['semantics'] = sem_factory()
